@@ -201,7 +201,8 @@ def gen(seed, idx, tier, ctx):
     case_no, j = divmod(idx, SWEEP)
     crng = random.Random('%s/%s/case/%d' % (seed, CHECK, case_no))
     case = draw_case(crng, tier)
-    state = crng.choice(['fresh', 'fresh', 'warm'])
+    state = crng.choice(['fresh', 'fresh', 'fresh', 'fresh', 'warm', 'warm',
+                         'custom'])
     mode = crng.choice(['stride', 'dense', 'dense'])
     base_frac = crng.random()
     inp = _case_text_inp(case)
@@ -461,9 +462,26 @@ def run(spec, refs):
     if spec.get('re_cold'):
         re.purge()
         stat('re_cold_runs')
+    pre = None
     if spec['state'] == 'warm':
         sqlparse.parse('select 1')
         sqlparse.format('select a from b', reindent=True)
+    elif spec['state'] == 'custom':
+        # the application has configured the shared lexer through the
+        # documented API; the follow-ups are then compared with the same
+        # calls made BEFORE the faulted ones (no pristine reference exists
+        # for a custom configuration)
+        from sqlparse import tokens as T
+        from sqlparse.lexer import Lexer
+        lx = Lexer.get_default_instance()
+        lx.add_keywords({'T': T.Keyword, 'FOO': T.Keyword.DML,
+                         'ZORG': T.Name.Builtin})
+        pre = []
+        for f in spec['followups']:
+            obj = ops.materialise(f['inp'])
+            o_, _v = ops.outcome_of(f['api'], lambda: ops.raw_call(
+                f['api'], obj, f['opts'], None))
+            pre.append(o_)
     stat('state_' + spec['state'])
     if spec.get('full'):
         stat('runs_of_cases_whose_whole_headroom_range_is_enumerated')
@@ -616,13 +634,17 @@ def run(spec, refs):
         out, _ = ops.outcome_of(
             f['api'], lambda: ops.raw_call(f['api'], obj, f['opts'], None))
         stat('followups')
-        if not canon.same(out, refs.get(key)):
+        want = pre[fi] if pre is not None else refs.get(key)
+        if not canon.same(out, want):
             viols.append({
                 'cls': 'later-call', 'followup_index': fi, 'api': f['api'],
-                'got': canon.short(out), 'want': canon.short(refs.get(key)),
+                'got': canon.short(out), 'want': canon.short(want),
                 'msg': 'after the stack-exhausted call(s), an ordinary %s '
-                       'call no longer gives the pristine-process result'
-                       % f['api']})
+                       'call no longer gives %s' % (
+                           f['api'], 'the pristine-process result'
+                           if pre is None else 'what the same call gave '
+                           'before them under the same custom lexer '
+                           'configuration')})
     return {'status': 'violation' if viols else 'ok', 'viol': viols,
             'stats': stats, 'sigs': sorted(sigs), 'sigs_nt': sorted(sigs_nt),
             'nontrivial': bool(sigs_nt),
@@ -773,6 +795,7 @@ SITE_PROBES = [
     'site_lexer.py:get_default_instance', 'site_lexer.py:set_SQL_REGEX',
     'escape_excused_by_control',
     'outcome_ok', 'outcome_sqlparseerror', 'state_fresh', 'state_warm',
+    'state_custom',
     'deep_calls', 're_cold_runs']
 
 COMPONENTS = {
